@@ -13,12 +13,23 @@
     nt_to_f64    cfg [mode] a
     as_<prim>    cfg [mode] a       `AsPrimitive::<prim>::as_(a)`; answer hex of the primitive pattern
     as_f32 | as_f64 cfg [mode] a    answer: bits hex
+  The other three `AsPrimitive` impl families of `src/int/numtraits.rs` (Model/C19Extra.lean):
+    as_from_<prim> cfg [mode] <hex> `<prim as AsPrimitive<T>>::as_(p)`  (`as_bigint_impl!`); answer hex of T
+    as_from_char cfg [mode] <hex>   `<char as AsPrimitive<T>>::as_(c)`, <hex> = code point (a scalar value)
+    as_from_bool cfg [mode] 0|1     `<bool as AsPrimitive<T>>::as_(b)`
+    as_from_f32 | as_from_f64 cfg [mode] <bits>   `<f32 as AsPrimitive<T>>::as_(f32::from_bits(bits))`
+    as_big       cfg [mode] <dst> a `<T as AsPrimitive<D>>::as_(a)`, <dst> = `u8x5`-style config of D
+                                    with the SAME digit width as cfg (the impls exist only within
+                                    one digit type); answer hex of D
+  The harness answers every `as_*` request only after comparing `AsPrimitive::as_` with
+  `CastFrom::cast_from` and `bnum::cast::As::as_` on the same operand (`MISMATCH(..)` otherwise).
   Model answer: Bnum.Model.NumConv, and Bnum.Model.NumConvD (every bnum-integer operation on digit
   lists) for the six float ops; spec answer: Bnum.Spec.NumConv (exact integers).
 -/
 import Bnum.Drive.Util
 import Bnum.Model.NumConv
 import Bnum.Model.NumConvD
+import Bnum.Model.C19Extra
 import Bnum.Spec.NumConv
 namespace Bnum.Drive.C19
 open Bnum Bnum.Drive
@@ -80,7 +91,36 @@ def handle : Handler := fun c op args =>
     let x ← parseVal c a
     some (showOut toHex (NumCD.asFloat dbg (mfmt is64) w c.signed x),
           toHex (Spec.intToFloat (sfmt is64) (valOf c x)))
+  | "as_from_f32", [b] | "as_from_f64", [b] => do
+    let is64 := op == "as_from_f64"
+    let bits ← parseHex b
+    if bits ≥ 2 ^ (mfmt is64).bits then none else
+    some (showOut (showVal c) (NumC.asFromFloat dbg (mfmt is64) w n c.signed bits),
+          toHex (Spec.floatToInt (sfmt is64) c.signed m bits))
+  | "as_from_char", [v] => do
+    let p ← parseHex v
+    -- only Unicode scalar values are `char`s
+    if p ≥ 0x110000 || (0xd800 ≤ p && p < 0xe000) then none else
+    some (showOut (showVal c) (NumC.asFromChar w n c.signed p),
+          toHex (Spec.cast false (2 ^ 32) p m))
+  | "as_from_bool", [v] => do
+    let b ← parseBool v
+    some (showVal c (NumC.asFromBool n c.signed b), toHex (Spec.cast false 2 b.toNat m))
+  | "as_big", [dst, a] => do
+    let d ← parseCfg dst
+    if d.w ≠ w || d.n = 0 then none else
+    let x ← parseVal c a
+    some (showOut (showVal d) (NumC.asBig w c.signed x d.n d.signed),
+          toHex (Spec.cast c.signed m (U w x) (M d.w d.n)))
   | _, [v] =>
+    match stripPrefix "as_from_" op with
+    | some pn => do
+      let t ← parsePrim pn
+      let p ← parseHex v
+      if p ≥ 2 ^ t.ty.bits then none else
+      some (showOut (showVal c) (NumC.asFromPrim w n c.signed t.ty p),
+            toHex (Spec.cast t.ty.signed (2 ^ t.ty.bits) p m))
+    | none =>
     match stripPrefix "from_" op with
     | some pn => do
       let t ← parsePrim pn
